@@ -125,15 +125,21 @@ func (bs *baseServer) Init() {
 // Compute the pathname of the requests that are handled by the server
 func (bs *baseServer) ComputePath(options config.AttachOptionsInterface) string {
 	path := "/engine.io"
+	addTrailingSlash := true
 
 	if options != nil {
 		if options.GetRawPath() != nil {
 			path = strings.TrimRight(options.Path(), "/")
 		}
-		if options.GetRawAddTrailingSlash() == nil || options.AddTrailingSlash() {
-			// normalize path
-			path += "/"
+		if options.GetRawAddTrailingSlash() != nil {
+			addTrailingSlash = options.AddTrailingSlash()
 		}
+	}
+
+	// the trailing slash is the default, with or without attach options
+	if addTrailingSlash {
+		// normalize path
+		path += "/"
 	}
 
 	return path
